@@ -4,6 +4,7 @@ import (
 	"encoding/binary"
 	"fmt"
 	"io"
+	"math"
 
 	"google.golang.org/protobuf/proto"
 )
@@ -50,6 +51,12 @@ func ReadMessage(buf *[]byte, r ByteReadReader, msg proto.Message) error {
 	size, err := binary.ReadUvarint(r)
 	if err != nil {
 		return err
+	}
+	// Protobuf messages are smaller than 2GiB. A larger announced size is a
+	// corrupt or hostile stream: int(size) would overflow or the allocation
+	// would exhaust memory.
+	if size > math.MaxInt32 {
+		return fmt.Errorf("message size %d exceeds the maximum of %d bytes", size, math.MaxInt32)
 	}
 	if cap(*buf) < int(size) {
 		*buf = make([]byte, size)
